@@ -115,6 +115,11 @@ def run_fn(repo, qual, *args, **kwargs):
         return it.call_fn(fn, list(args), kwargs)
     except Fork:
         raise AnalysisError(f'{qual}: undecidable test {it.fork_log[-1]}')
+    except Raised as r:
+        if getattr(r, 'native', False) and (r.exc_type in ('TypeError', 'AttributeError') or 'must be of integer' in r.message or 'object' in r.message):
+            # dtype-related failure of real NumPy on object arrays of expressions: no verdict (shape errors are faithful and stay the program's errors)
+            raise AnalysisError(f'{qual}: a library call failed in the symbolic domain ({r.exc_type}: {r.message}) at {r.where}')
+        raise
 
 
 _RNG = [sp.Rational(p_, q_) for p_, q_ in ((3, 7), (5, 3), (2, 5), (11, 4), (7, 6), (4, 9), (8, 5), (9, 7), (13, 11), (6, 13), (10, 3), (1, 4), (15, 8), (5, 12), (17, 9), (2, 11),
